@@ -265,7 +265,7 @@ pub fn run(rep: &Report) {
         common::enumerate(rep, "sequence-alphabet", total, 4096, &|i, l| {
             let mut toks = Vec::with_capacity(len);
             gen::nth_sequence(&seq, len, i, &mut toks);
-            if i % 30011 == 0 {
+            if i % 30011 == 7_777 {
                 l.sample(2, || json!(tok::render_spaced(&toks)));
             }
             check_tokens(&toks, l)
